@@ -16,3 +16,6 @@ import Solvor.Pack.Theorems
 #print axioms Solvor.Pack.minBinsP_le
 #print axioms Solvor.Pack.knapsack_near_scaled_optimal
 #print axioms Solvor.Pack.knapsack_lossless_near_optimal
+#print axioms Solvor.Pack.scan_spec
+#print axioms Solvor.Pack.binpack_two_approx
+#print axioms Solvor.Pack.packOrder_sorted
